@@ -5,7 +5,7 @@ import math, os
 from collections import Counter, defaultdict
 import checklib as cl
 
-C12_OPS = ("uni", "bnd", "zo", "hwt", "umask")
+C12_OPS = ("uni", "bnd", "zo", "hwt", "hwtw", "umask")
 
 
 def parse_line(l):
@@ -67,7 +67,7 @@ def cross_checks(stdout, want):
         op, a, out = parse_line(l)
         w, n, nm = a[0], a[1], a[2]
         ps = P[w][:nm]
-        if out == [-1]:
+        if out == [-1] or len(ps) < nm:
             continue
         if "canonical" in want and op in ("uni", "zo", "hwt"):
             stats["canonical-lines"] += 1
@@ -172,16 +172,50 @@ def cross_checks(stdout, want):
     return fails, stats
 
 
-def run(ctx, res, ops=None, want=(), env_extra=None):
+CROSS_OPS = ("uni", "bnd", "zo", "hwt")     # what cross_checks reads (small-degree enumerations only)
+
+
+def moduli_lines(exe, env_extra=None):
+    """the '# P <w> <moduli…>' lines of the harness (run_stream drops comment lines before any filter sees them)"""
+    import subprocess
+    e = dict(os.environ)
+    e.update(env_extra or {})
+    e["SAMPLERS_PRINT_P"] = "1"
+    try:
+        r = subprocess.run([exe], env=e, capture_output=True, text=True, timeout=60)
+        return [l for l in r.stdout.splitlines() if l.startswith("# P ")]
+    except Exception:
+        return []
+
+
+def run(ctx, res, ops=None, want=(), env_extra=None, rename=None):
+    """rename: {op: op'} applied to the lines before they reach the driver (C09 judges the fixed-weight lines with
+    ITS statement only: hwt -> hwt9, hwtw -> hwtw9; the position law belongs to C12)"""
     exes, errs = cl.build_harnesses([dict(name="samplers", backend="serial", with_prng=False)])
     for k, e in errs.items():
         ctx["problems"].append({"kind": "harness-build", "what": "samplers harness does not compile for %s" % (k,), "detail": e})
     extra = {}
+    rename = rename or {}
     for (name, b), exe in sorted(exes.items()):
-        flt = None if ops is None else (lambda l: l.split(" ", 1)[0] in ops)
+        kept = []
+
+        def flt(l, kept=kept):
+            op = l.split(" ", 1)[0]
+            if ops is not None and op not in ops:
+                return False
+            if want and op in CROSS_OPS and len(l) < 100000:
+                kept.append(l)
+            if op in rename:
+                return rename[op] + l[len(op):]
+            return True
+
         h = cl.run_stream(res, "samplers/" + b, exe, env=env_extra, line_filter=flt, trivial=lambda lhs: False)
         if h is not None and want:
-            fails, stats = cross_checks(h.stdout, set(want))
+            plines = moduli_lines(exe, env_extra)
+            if not plines:
+                ctx["problems"].append({"kind": "cross-check", "what": "the harness did not print its moduli: python cross-checks not run"})
+                continue
+            fails, stats = cross_checks("\n".join(plines + kept), set(want))
             ctx.setdefault("failing_inputs", [])
             for f in fails[:10]:
                 f["line"] = f["line"] if len(f["line"]) < 4000 else f["line"][:4000] + " …"
@@ -190,12 +224,12 @@ def run(ctx, res, ops=None, want=(), env_extra=None):
     return extra
 
 
-def search(ctx, res, problems, ops=None, want=()):
+def search(ctx, res, problems, ops=None, want=(), rename=None):
     found = []
     for s in range(2):
         r2 = cl.StreamResult()
         c2 = {"problems": [], "failing_inputs": []}
-        run(c2, r2, ops=ops, want=want, env_extra={"VERIF_SEED": str(ctx["seed"] * 1000 + s + 7), "VERIF_TIER": "thorough"})
+        run(c2, r2, ops=ops, want=want, env_extra={"VERIF_SEED": str(ctx["seed"] * 1000 + s + 7), "VERIF_TIER": "thorough"}, rename=rename)
         for sf in r2.specfail:
             found.append({"kind": "spec", **sf})
         found += c2["failing_inputs"]
